@@ -1533,6 +1533,11 @@ class Gen(object):
         if 'F2' in self.p.faults and r.random() < 0.12:
             op['nocopy'] = True           # F2: a handler that cannot be deep-copied (it holds a lock, a file ...)
             return op
+        if self.p.prop == 'C02' and 'F4' in self.p.faults and r.random() < 0.2:
+            op['selfwiden'] = r.choice([1, 2, 4, 8])      # F10: the handler widens its own object during its resize
+            op['site'] = r.choice(['on_value_change', 'on_value_change', site])
+            self.on_last(lambda: self.g_resize(dtype_p=0.6))
+            return op
         if r.random() < 0.2:
             op['unregister'] = True       # F7: one-shot callback that removes itself when notified
             return op
